@@ -723,6 +723,19 @@ func (g *gen) genFields(kind string) []*Field {
 		f.Annos = g.annos(1)
 		fs = append(fs, f)
 	}
+	// names of the per-field helpers the backend generates, built from a field id
+	// that really occurs in this struct (Field<id>DeepEqual, ReadField<id>, ...)
+	if g.cfg.NameStress && (kind == "struct" || kind == "exception" || kind == "union") && len(fs) >= 1 && g.p(1, 5, "helpername_for_id") {
+		id := fs[g.intn(0, len(fs)-1, "helper_of")].ID
+		if id > 0 {
+			pat := rapid.SampledFrom([]string{"Field%dDeepEqual", "field%d_deep_equal", "ReadField%d", "read_field%d", "writeField%d", "write_field%d"}).Draw(g.t, "helper_pat")
+			n := fmt.Sprintf(pat, id)
+			if !usedNames[n] {
+				usedNames[n] = true
+				fs[g.intn(0, len(fs)-1, "helper_at")].Name = n
+			}
+		}
+	}
 	return fs
 }
 
